@@ -48,4 +48,9 @@ theorem history_fits (m : String) (hm : m ∈ methods) (ops : List Op) :
 
 example : ∃ o, run "sparse" [.init, .reset, .reset] = some o ∧ ctorKind o.mat.1 = some .sparse := by decide
 
+/-- **C03 / C01 / C06 (rate arrays).** In every back-end, every function that evaluates the right-hand side or the Jacobian
+    declares `k`, `kh`, `kc` once each, with the size the rate functions write (`NREACTIONS`, `NHEATPROCS`, `NCOOLPROCS`), as
+    automatic arrays initialised to zero at every call. -/
+theorem rate_arrays_ok : evaluators.all evaluatorOk = true := by decide
+
 end Naunet.SolverObj
